@@ -51,6 +51,10 @@ pub struct JitCase {
     /// or preset the pool itself to this value
     #[serde(default)]
     pub start_pool: Option<u64>,
+    /// or preset it such that the first collection returns (start pool ^ this): 0 = a fixed point
+    /// of the collection map
+    #[serde(default)]
+    pub first_relation: Option<u64>,
 }
 
 pub fn check_det(c: &DetCase) -> CheckResult {
@@ -182,6 +186,11 @@ pub fn check_jit(c: &JitCase) -> CheckResult {
         }
     } else if let Some(p0) = c.start_pool {
         targeted = g.jitter().unwrap().set_pool(p0);
+    } else if let Some(rel) = c.first_relation {
+        let rounds = c.rounds0.map(|r| r as u32).unwrap_or(64);
+        if let Some(p0) = crate::refmodel::jitter::pool_for_relation(&script, 0, rounds, rel, 3_000_000) {
+            targeted = g.jitter().unwrap().set_pool(p0);
+        }
     }
     for (k, op) in c.ops.iter().enumerate() {
         if c.clone_at == Some(k) {
@@ -264,12 +273,13 @@ pub fn def(ctx: &Ctx) -> PropDef {
             t.pick(1000, 100_000),
             move || {
                 let ops = proptest::collection::vec(prop_oneof![20 => crate::props::c12::jop(64), 1 => Just(JOp::TestTimer)], 0..=max_ops);
-                (gens::timer_prog(true, 16), proptest::option::weighted(0.85, gens::jitter_rounds()), ops, proptest::option::weighted(0.3, 0usize..12), proptest::option::weighted(0.2, crate::props::c12::structured_value()), proptest::option::weighted(0.15, crate::props::c12::structured_value()))
-                    .prop_map(|(prog, rounds0, mut ops, clone_at, first_result, start_pool)| {
-                        if first_result.is_some() && !ops.iter().any(|o| matches!(o, JOp::U32 | JOp::U64)) {
+                (gens::timer_prog(true, 16), proptest::option::weighted(0.85, gens::jitter_rounds()), ops, proptest::option::weighted(0.3, 0usize..12), proptest::option::weighted(0.2, crate::props::c12::structured_value()), proptest::option::weighted(0.15, crate::props::c12::structured_value()), proptest::option::weighted(0.15, prop_oneof![4 => Just(0u64), 1 => Just(u64::MAX), 1 => (0u32..64).prop_map(|k| 1u64 << k)]))
+                    .prop_map(|(prog, rounds0, mut ops, clone_at, first_result, start_pool, first_relation)| {
+                        if first_result.is_some() || (start_pool.is_none() && first_relation.is_some()) {
+                            // the targeted collection must be the first operation
                             ops.insert(0, JOp::U64);
                         }
-                        JitCase { prog, rounds0, ops, clone_at, first_result, start_pool }
+                        JitCase { prog, rounds0, ops, clone_at, first_result, start_pool, first_relation }
                     })
                     .boxed()
             },
@@ -362,6 +372,7 @@ pub fn def(ctx: &Ctx) -> PropDef {
                         clone_at: None,
                         first_result: None,
                         start_pool: None,
+                        first_relation: None,
                     });
                 }
             }
